@@ -134,6 +134,53 @@ func dateSites(y, m, d int) string {
 	})
 }
 
+func noonExists(loc *time.Location, d time.Time) bool {
+	t := time.Date(d.Year(), d.Month(), d.Day(), 12, 0, 0, 0, loc)
+	return t.Year() == d.Year() && t.Month() == d.Month() && t.Day() == d.Day() && t.Hour() == 12
+}
+
+// orderSites: day a is the day before day b; each made in the four ways a date comes into being, every pairing compared
+func orderSites(a, b time.Time) string {
+	return guard(func() string {
+		mk := func(d time.Time) map[string]types.Date {
+			y, m, dd := d.Year(), int(d.Month()), d.Day()
+			out := map[string]types.Date{"ToDate": types.ToDate(y, time.Month(m), dd)}
+			txt := fmt.Sprintf("%04d-%02d-%02d", y, m, dd)
+			if p, err := types.ParseDate(txt); err == nil {
+				out["ParseDate"] = p
+			}
+			var w types.Date
+			if v, err := w.UnmarshalUT0311L0x(append(bcdBytes(fmt.Sprintf("%04d%02d%02d", y, m, dd)), 0, 0, 0, 0)); err == nil {
+				out["wire"] = *v.(*types.Date)
+			}
+			var j types.Date
+			if err := json.Unmarshal([]byte(`"`+txt+`"`), &j); err == nil {
+				out["json"] = j
+			}
+			return out
+		}
+		as, bs := mk(a), mk(b)
+		bad := []string{}
+		for _, ka := range []string{"ToDate", "ParseDate", "wire", "json"} {
+			for _, kb := range []string{"ToDate", "ParseDate", "wire", "json"} {
+				x, okx := as[ka]
+				y, oky := bs[kb]
+				if !okx || !oky {
+					bad = append(bad, ka+"/"+kb+":missing")
+					continue
+				}
+				if !(x.Before(y) && !x.Equals(y) && !x.After(y) && y.After(x) && !y.Before(x) && !y.Equals(x)) {
+					bad = append(bad, ka+"/"+kb)
+				}
+			}
+		}
+		if len(bad) == 0 {
+			return "ordered"
+		}
+		return "DISORDER:" + strings.Join(bad, ",")
+	})
+}
+
 // opDateSites: the same date through the operations that carry dates - in a reply (GetCardByID, GetCardByIndex,
 // GetTimeProfile, GetDevice) and in a request (PutCard, SetTimeProfile, AddTask): what an operation returns is the
 // value the wire decoder gives, what it sends are the digits the wire encoder gives. Empty when everything agrees.
@@ -295,6 +342,41 @@ func streamZones(c *ctx) {
 		}
 		for _, k := range keys {
 			emitDate(k[0], k[1], k[2], days[k])
+		}
+		// discovery in this zone: a reply dated on such a day is listed with that date
+		for _, k := range keys {
+			y, m, d := k[0], k[1], k[2]
+			if !noonExists(loc, time.Date(y, time.Month(m), d, 12, 0, 0, 0, time.UTC)) {
+				continue
+			}
+			out := guard(func() string {
+				u, drv := newClient(nil, types.BroadcastAddr{})
+				b, _ := codec.Marshal(messages.GetDeviceResponse{SerialNumber: 405419896, IpAddress: net.IPv4(10, 0, 0, 1), SubnetMask: net.IPv4(255, 0, 0, 0), Gateway: net.IPv4(10, 0, 0, 254), MacAddress: types.MacAddress{1, 2, 3, 4, 5, 6}})
+				copy(b[28:32], bcdBytes(fmt.Sprintf("%04d%02d%02d", y, m, d)))
+				drv.Datagrams = [][]byte{b}
+				devs, err := u.GetDevices()
+				if err != nil || len(devs) != 1 {
+					return fmt.Sprintf("entries=%d", len(devs))
+				}
+				t := time.Time(devs[0].Date)
+				return fmt.Sprintf("%d %d %d", t.Year(), int(t.Month()), t.Day())
+			})
+			w.Emit(fmt.Sprintf("zdisc %s | %d %d %d", strings.ReplaceAll(name, " ", "_"), y, m, d), out, "discovery/"+days[k], "zone/"+name)
+		}
+		// the order of neighbouring days, however each of them came into being: the earlier one is before the later
+		for _, k := range keys {
+			if days[k] != "date/midnight-removed" {
+				continue
+			}
+			day := time.Date(k[0], time.Month(k[1]), k[2], 12, 0, 0, 0, time.UTC)
+			for _, delta := range []int{-1, 0} {
+				a, b := day.AddDate(0, 0, delta), day.AddDate(0, 0, delta+1)
+				if !noonExists(loc, a) || !noonExists(loc, b) {
+					continue // a day the zone skipped altogether
+				}
+				w.Emit(fmt.Sprintf("zorder %s | %d %d %d | %d %d %d", strings.ReplaceAll(name, " ", "_"), a.Year(), int(a.Month()), a.Day(), b.Year(), int(b.Month()), b.Day()),
+					orderSites(a, b), "order/next-to-removed-midnight", "zone/"+name)
+			}
 		}
 		n := 60 * c.scale
 		if c.tier == "thorough" {
